@@ -1,4 +1,4 @@
-import RockitModel.Model.Transcribe
+import RockitModel.Model.Sample
 /-!
 Line-protocol driver: reads an OCP description, a decision point and `run …` requests from
 stdin, evaluates the model over `Rat`, prints canonical answers.
@@ -159,6 +159,22 @@ def runCmd (b : B) (what : List String) : Except String (List String) := do
         ((List.range c.N).flatMap fun k => (List.range c.M).map fun i =>
             "zs " ++ toString k ++ " " ++ toString i ++ " " ++ showRats (c.envStep k i).z.toList) ++ ["end"]
   | ["ph"] => return [s!"ph {showRats c.phValues.toList}", "end"]
+  | "sample" :: "control" :: f :: l :: e =>
+      let e ← parseExprAll e
+      return (c.sampleControl e (flag f) (flag l)).map (fun p => "s " ++ showRat p.1 ++ " " ++ showRat p.2) ++ ["end"]
+  | "sample" :: "integrator" :: e =>
+      let e ← parseExprAll e
+      return (c.sampleIntegrator e).map (fun p => "s " ++ showRat p.1 ++ " " ++ showRat p.2) ++ ["end"]
+  | "sample" :: "roots" :: e =>
+      let e ← parseExprAll e
+      return (c.sampleRoots e).map (fun p => "s " ++ showRat p.1 ++ " " ++ showRat p.2) ++ ["end"]
+  | "sample" :: "fine" :: r :: e =>
+      let e ← parseExprAll e
+      return (c.sampleFine e r.toNat!).map (fun p => "s " ++ showRat p.1 ++ " " ++ showRat p.2) ++ ["end"]
+  | "sampler" :: t :: e =>
+      let e ← parseExprAll e
+      let t ← parseRats [t]
+      return ["s " ++ showRat t[0]! ++ " " ++ showRat (c.samplerAt e t[0]!), "end"]
   | _ => throw s!"unknown run {what}"
 
 def stepLine (b : B) (line : String) : Except String (B × List String) := do
